@@ -125,6 +125,25 @@ static inline cstl_ms cstl_ns_to_ms(int64_t x) { return x / 1000000; }
 """
 
 
+# std::vector::back() of the output vector of find_range (the abstract vector keeps its last element): emitted on demand
+OUTVEC_EXTRA = r"""
+#ifndef CSTL_OUTVEC_EXTRA
+#define CSTL_OUTVEC_EXTRA
+static inline cstl_pair_kopt *cstl_outvec_back(cstl_outvec *o)
+{
+    CSTL_ASSERT(o->size > 0, "std.vector.back: vector not empty [C08]");
+    return &o->last;
+}
+static inline cstl_pair_kb *cstl_outvec_kb_back(cstl_outvec_kb *o)
+{
+    CSTL_ASSERT(o->size > 0, "std.vector.back: vector not empty [C08]");
+    return &o->last;
+}
+#endif
+
+"""
+
+
 def balanced(x):
     """parentheses of x are balanced and never close below the start"""
     d = 0
@@ -568,6 +587,8 @@ class Emitter:
         H.append('#endif')
         ctext = '\n'.join(C)
         extra = CHRONO_EXTRA if re.search(r'\bcstl_(ns_to_ms|tp_diff|tp_add_ns)\(', ctext) else ''
+        if re.search(r'\bcstl_outvec(_kb)?_back\(', ctext):
+            extra += OUTVEC_EXTRA
         return '\n'.join(H) + '\n', '#include "%s.h"\n\n' % n + extra + ctext, info
 
     def cfix(self, cx, c):
@@ -1357,6 +1378,16 @@ class FuncEmitter:
                 m = self.model_for_iter(t, e)
                 return '%s_next(%s, %s)' % (m.name, self.pool(m), self.expr(args[0]))
             abort('std::next over %s' % t.src, e)
+        if name == 'distance' and len(args) == 2:
+            ta, tb = self.cls(args[0]), self.cls(args[1])
+            if ta.k == 'ptr' and tb.k == 'ptr':
+                return '((int64_t)((%s) - (%s)))' % (self.expr(args[1]), self.expr(args[0]))
+            abort('std::distance over %s' % ta.src, e)
+        if name == 'advance' and len(args) == 2:
+            ta = self.cls(args[0])
+            if ta.k == 'ptr':
+                return '(%s += %s)' % (self.expr(args[0]), self.expr(args[1]))
+            abort('std::advance over %s' % ta.src, e)
         if name == 'duration_cast' and len(args) == 1:
             tf, tt = self.cls(args[0]), self.cls(e)
             if tf.k == tt.k and tf.k in ('ms', 'ns'):
@@ -1409,6 +1440,12 @@ class FuncEmitter:
                 return '%s_reserve(&%s, %s)' % (v['T'].c, v['c'], self.expr(args[0]))
             if name == 'emplace_back' and len(args) == 2:
                 return '%s_emplace_back(&%s, %s, %s)' % (v['T'].c, v['c'], self.expr(args[0]), self.expr(args[1]))
+            if name == 'empty' and not args:
+                return '(%s.size == 0)' % v['c']
+            if name == 'size' and not args:
+                return '%s.size' % v['c']
+            if name == 'back' and not args:
+                return '(*%s_back(&%s))' % (v['T'].c, v['c'])
             abort('output vector operation without a rule: ' + name, e)
         if v and v['T'].k == 'range':
             return self.range_op(v, name)
